@@ -461,7 +461,26 @@ func init() {
 	}
 	stubs["(*bytes.Buffer).Bytes"] = func(e *Exec, th *Thread, c *CallCtx, a []Val) StubRes {
 		k := bufOf(e, a[0])
-		return ret(bytesOf(e.buffers[k]))
+		bv := bytesOf(e.buffers[k])
+		// the returned slice aliases the buffer's storage until the buffer is reset and rewritten
+		if e.bufAliases == nil {
+			e.bufAliases = map[string][]*BytesV{}
+		}
+		e.bufAliases[k] = append(e.bufAliases[k], bv)
+		return ret(bv)
+	}
+	stubs["(*bytes.Buffer).Reset"] = func(e *Exec, th *Thread, c *CallCtx, a []Val) StubRes {
+		k := bufOf(e, a[0])
+		e.buffers[k] = mkStr("")
+		// slices handed out earlier share the storage that is about to be overwritten: their
+		// contents become arbitrary (over-approximation of the aliasing)
+		for _, bv := range e.bufAliases[k] {
+			bv.S = e.fresh("clobbered", SBlob)
+		}
+		if e.bufAliases != nil {
+			e.bufAliases[k] = nil
+		}
+		return ret(nil)
 	}
 	stubs["(*bytes.Buffer).String"] = func(e *Exec, th *Thread, c *CallCtx, a []Val) StubRes {
 		k := bufOf(e, a[0])
